@@ -40,7 +40,7 @@ PROPS = {}
 
 PROPS['C01'] = dict(
     bounds=GRAPH_BOUNDS, outside=OUTSIDE_COMMON,
-    runs=both('h_graph_n2', covers=[1, 2]) + [R('h_graph_n2', 'none', covers=[1, 2]), R('h_graph_n2', 'faw', 'release', covers=[1, 2])]
+    runs=both('h_graph_n2', covers=[1, 2]) + [R('h_graph_n2', 'none', covers=[1, 2]), R('h_graph_n2', 'faw', 'release', T, covers=[1, 2]), R('h_weak_cb_n2', 'faw', covers=[1, 2]), R('h_weak_helper', 'faw', covers=[1, 2]), R('h_cyclic', 'faw', 'release', covers=[1, 2, 3])]
          + [R('h_graph_n3', covers=[1, 2]), R('h_graph_n3', 'fa', 'release', T, covers=[1, 2])]
          + [R('h_fin_n3', covers=[1]), R('h_panic_n4_q', covers=[1, 11]), R('h_panic_n3', 'fa', 'release', covers=[1])]
          + both('h_graph_n3_untraced', tiers=T, covers=[1]) + [R('h_graph_n3_s2', tiers=T, covers=[1])]
@@ -60,7 +60,7 @@ PROPS['C03'] = dict(
            "drop-once / free-once / right-layout are engine-level obligations on every path of the graph and weak families too",
     outside="sizes above 4 KiB; allocation failure; " + OUTSIDE_COMMON,
     runs=both('h_layout_grid', 'faw', covers=[1]) + [R('h_layout_grid', 'none', covers=[1]), R('h_layout_zst', 'faw', covers=[1])]
-         + [R('h_graph_n2', 'fa', 'release', covers=[1, 2]), R('h_weak_prog_n2', 'faw', covers=[1, 2]), R('h_unwrap_weak', 'faw', covers=[1, 2])]
+         + [R('h_graph_n2', 'fa', 'release', covers=[1, 2]), R('h_weak_cb_n2', 'faw', covers=[1, 2]), R('h_unwrap_weak', 'faw', covers=[1, 2]), R('h_nest_n2', covers=[1])]
          + [R('h_cyclic', 'faw', covers=[1, 2, 3]), R('h_trace_manuallydrop_cycle', covers=[1]), R('h_layout_small', 'faw', covers=[1]), R('h_layout_small', 'fa', 'release', covers=[1])]
          + twin('h_layout_twin', 'faw'),
 )
@@ -68,7 +68,7 @@ PROPS['C04'] = dict(
     bounds=GRAPH_BOUNDS + "; strong_count() compared with the model count after every operation for ALL phantom counts (one solver variable per object)",
     outside=OUTSIDE_COMMON,
     runs=both('h_graph_n2', covers=[1, 2]) + [R('h_graph_n3', 'fa', 'release', covers=[1, 2])]
-         + [R('h_sat_strong', 'faw', covers=[1, 2]), R('h_panic_n2', covers=[1]), R('h_unwrap', covers=[1, 2]), R('h_nest_n2', covers=[1])]
+         + [R('h_sat_strong', 'faw', covers=[1, 2]), R('h_panic_n2', covers=[1]), R('h_unwrap', covers=[1, 2]), R('h_nest_n2', covers=[1]), R('h_panic_n3', covers=[1])]
          + [R('h_panic_n3_hist', tiers=T, covers=[1])]
          + twin('h_graph_twin'),
 )
@@ -78,14 +78,14 @@ PROPS['C05'] = dict(
            "reference-count path and the collector path; later history of resurrected objects incl. finalize_again",
     outside=OUTSIDE_COMMON,
     runs=[R('h_fin_n2', covers=[1, 2]), R('h_fin_n3', 'fa', 'release', covers=[1]), R('h_fin_weak_n2', 'faw', covers=[1])]
-         + [R('h_graph_n2', 'none', covers=[1, 2]), R('h_nest_n2', covers=[1])]  # finalization off: finalize is never called
+         + [R('h_graph_n2', 'none', covers=[1, 2]), R('h_nest_n2', covers=[1]), R('h_panic_fin_n2', covers=[1])]  # finalization off: finalize is never called
          + [R('h_fin_n3_stash', tiers=T, covers=[1]), R('h_fin_weak_n3', 'faw', tiers=T, covers=[1]), R('h_fin_n2', 'fa', 'release', T, covers=[1, 2])]
          + twin('h_fin_twin'),
 )
 PROPS['C06'] = dict(
     bounds=PROPS['C05']['bounds'] + "; termination: a path exceeding 3M IR instructions or 4 collect calls without quiescence is a violation",
     outside=OUTSIDE_COMMON + "; chains of more than 4 finalizer-released objects",
-    runs=[R('h_fin_n3_stash', covers=[1]), R('h_fin_n2', covers=[1, 2]), R('h_fin_weak_n2', 'faw', covers=[1]), R('h_chain12', covers=[1])]
+    runs=[R('h_fin_n3_stash', covers=[1]), R('h_fin_n2', covers=[1, 2]), R('h_fin_weak_n2', 'faw', covers=[1]), R('h_chain12', covers=[1]), R('h_weak_helper', 'faw', covers=[1, 2])]
          + [R('h_fin_n2', 'fa', 'release', T, covers=[1, 2]), R('h_fin_n3', tiers=T, covers=[1]), R('h_fin_weak_n3', 'faw', tiers=T, covers=[1]), R('h_fin_weak_n2', 'faw', 'release', T, covers=[1])]
          + twin('h_fin_twin'),
 )
@@ -105,6 +105,7 @@ PROPS['C08'] = dict(
     outside=OUTSIDE_COMMON,
     runs=[R('h_weak_prog_n2', 'faw', covers=[1, 2]), R('h_weak_cb_n2', 'faw', covers=[1, 2]), R('h_weak_cb_n2', 'faw', 'release', T, covers=[1, 2])]
          + [R('h_weak_cb_n2', 'w', covers=[1]), R('h_unwrap_weak', 'faw', covers=[1, 2]), R('h_clean_n2', 'fawc', tiers=T, covers=[1])]
+         + [R('h_weak_helper', 'faw', covers=[1, 2]), R('h_weak_helper', 'faw', 'release', covers=[1, 2]), R('h_sat_weak', 'faw', 'release', covers=[1, 2]), R('h_nest_n2', 'faw', covers=[1, 3])]
          + [R('h_weak_cb_ring3', 'faw', tiers=T, covers=[1, 2])]
          + twin('h_weak_twin', 'faw'),
 )
@@ -113,7 +114,8 @@ PROPS['C09'] = dict(
            "counting, by the collector and by try_unwrap; re-downgrade after the weak count returned to zero; the side record's allocation is tracked",
     outside=OUTSIDE_COMMON,
     runs=both('h_weak_prog_n2', 'faw', covers=[1, 2]) + [R('h_weak_prog_n1', 'faw', covers=[1, 2]), R('h_sat_weak', 'faw', covers=[1, 2])]
-         + [R('h_unwrap_weak', 'faw', covers=[1, 2]), R('h_cyclic', 'faw', covers=[1, 2, 3]), R('h_weak_prog_n2', 'w', covers=[1, 2])]
+         + [R('h_unwrap_weak', 'faw', covers=[1, 2]), R('h_weak_prog_n2', 'w', covers=[1, 2])] + both('h_cyclic', 'faw', covers=[1, 2, 3])
+         + [R('h_sat_weak', 'faw', 'release', covers=[1, 2]), R('h_nest_n2', 'faw', covers=[1, 3])]
          + twin('h_weak_twin', 'faw'),
 )
 PROPS['C10'] = dict(
@@ -122,7 +124,8 @@ PROPS['C10'] = dict(
            "by reference counting or in a cycle; a field dropped right after the Cleaner observes 'exactly once by the time the Cleaner's drop returns'",
     outside="more than 3 actions per scenario (slot-map growth beyond its initial capacity), slot-map key version wrap-around; " + OUTSIDE_COMMON,
     assumptions=["liballoc's RawVecInner::{try_allocate_in, grow_amortized, deallocate} (precompiled, not in the IR) are modelled by the engine"],
-    runs=[R('h_clean_n2', 'fawc', covers=[1]), R('h_clean_n2_a3', 'fawc', covers=[1]), R('h_clean_n2_a3', 'fawc', 'release', covers=[1])]
+    runs=[R('h_clean_n2', 'fawc', covers=[1]), R('h_clean_n2_a3', 'fawc', covers=[1]), R('h_clean_n2_a3', 'fawc', 'release', T, covers=[1])]
+         + both('h_clean_helper', 'fawc', covers=[1])
          + [R('h_clean_n2', 'fawc', 'release', T, covers=[1])]
          + twin('h_clean_twin', 'fawc'),
 )
@@ -132,7 +135,7 @@ PROPS['C11'] = dict(
            "set is predicted for finalizer-free programs of N<=3 nodes",
     outside=OUTSIDE_COMMON,
     runs=both('h_buffer_n3', covers=[1]) + [R('h_buffer_n3', 'none', covers=[1]), R('h_unwrap', covers=[1, 2]), R('h_nest_n2', covers=[1])]
-         + [R('h_fin_n2', covers=[1, 2]), R('h_panic_n3', covers=[1])]
+         + [R('h_fin_n2', covers=[1, 2]), R('h_panic_n3', covers=[1]), R('h_cyclic', 'faw', covers=[1, 2, 3])]
          + twin('h_graph_twin'),
 )
 PROPS['C12'] = dict(
@@ -140,7 +143,7 @@ PROPS['C12'] = dict(
            "(probe = try_unwrap and finalize_again on a unique program-held Cc); objects die by plain drop, by an explicit collection or by a collection "
            "triggered by Cc::new; is_tracing() sampled in every callback",
     outside=OUTSIDE_COMMON,
-    runs=both('h_nest_n2', covers=[1, 3]) + [R('h_fin_n2', covers=[1, 2]), R('h_nest_n2', 'faw', covers=[1]), R('h_nest_n2_full', tiers=T, covers=[1, 3])]
+    runs=both('h_nest_n2', covers=[1, 3]) + [R('h_fin_n2', covers=[1, 2]), R('h_nest_n2', 'faw', covers=[1]), R('h_panic_n3', covers=[1]), R('h_nest_n2_full', tiers=T, covers=[1, 3])]
          + twin('h_nest_twin'),
 )
 PROPS['C13'] = dict(
@@ -155,7 +158,7 @@ PROPS['C14'] = dict(
     bounds="closure behaviour in {plain, save a Weak clone, keep a Weak in the value, allocate, collect_cycles(), save two clones and panic}; collector state in "
            "{idle, garbage 2-cycle buffered, garbage buffered and its first trace/finalize/drop callback panics}; automatic collection due or disabled",
     outside=OUTSIDE_COMMON,
-    runs=both('h_cyclic', 'faw', covers=[1, 2, 3]) + both('h_cyclic_in_drop', 'faw', covers=[1]) + [R('h_cyclic', 'fawc', covers=[1, 2, 3]), R('h_layout_grid', 'faw', covers=[1])]
+    runs=both('h_cyclic', 'faw', covers=[1, 2, 3]) + both('h_cyclic_in_drop', 'faw', covers=[1]) + [R('h_cyclic', 'fawc', covers=[1, 2, 3]), R('h_layout_grid', 'faw', covers=[1])] + both('h_sat_weak', 'faw', covers=[1, 2])
          + twin('h_cyclic_twin', 'faw'),
 )
 PROPS['C15'] = dict(
@@ -175,7 +178,7 @@ PROPS['C16'] = dict(
            "weak count 1+m with m in 0..32766, one more Weak by downgrade or clone, value alive or gone; counter-word kernels from arbitrary 16-bit words",
     outside=OUTSIDE_COMMON,
     runs=both('h_sat_strong', 'faw', covers=[1, 2]) + both('h_sat_weak', 'faw', covers=[1, 2]) + both('h_counter_kernel', 'faw', covers=[1])
-         + both('h_weak_kernel', 'faw', covers=[1]) + [R('h_sat_strong', 'none', covers=[1, 2])]
+         + both('h_weak_kernel', 'faw', covers=[1]) + [R('h_sat_strong', 'none', covers=[1, 2])] + both('h_sat_inlist', covers=[1])
          + twin('h_count_twin', 'faw'),
     kani=['strong_increment_saturates', 'strong_decrement', 'tracing_increment_and_reset', 'marks_and_flags_touch_only_their_bits', 'weak_word'],
 )
@@ -202,7 +205,7 @@ PROPS['C20'] = dict(
            "also a Cc compared with its own clone; Debug/Display/Pointer: 12 format specs (width, fill, alignment, sign, zero padding, precision, alternate, hex-debug) through the "
            "real core::fmt::write of the whole-program (fat LTO) IR, with a symbolic Ok/Err result of the payload's fmt",
     outside="f32; formatting of payload types other than the recording probe (the claim is 'forwards to T with the caller's Formatter', decided on 12 format specs)",
-    runs=both('h_layout_grid', 'faw', covers=[1]) + both('h_forward_ints', covers=[1]) + both('h_forward_f64', covers=[1]) + [R('h_layout_zst', covers=[1])] + both('h_layout_small', covers=[1])
+    runs=both('h_layout_grid', 'faw', covers=[1]) + both('h_forward_ints', covers=[1]) + both('h_forward_f64', covers=[1]) + [R('h_layout_zst', covers=[1]), R('h_graph_small', covers=[1])] + both('h_layout_small', covers=[1])
          + [R('h_fmt_forward', 'fa', 'dev', covers=[1], lto=True), R('h_fmt_twin', 'fa', 'dev', Q, twin=True, lto=True)]
          + twin('h_layout_twin', 'faw'),
 )
